@@ -1,7 +1,7 @@
 #!/bin/bash
 # runs every registered quick (or thorough) check and prints one line per property
 tier=${1:-quick}
-cd /verif
+cd "$(dirname "$0")"
 for p in $(bin/gosmt list); do
   s=$(date +%s)
   bin/gosmt check --property $p --tier $tier > out/all_$p.txt 2>&1
